@@ -202,5 +202,308 @@ Section Code.
       unfold revert_to.
       destruct (code_revert_n (length (j_entries (c_j cs)) - idx) (c_j cs) b) as [E|[E|E]]; [by left|right; right; by left|].
       right. right. right. exact (D3 id idx rest eq_refl Ef b E).
+    - (* SetTxContext + Prepare *) left. by destruct (txstart_core (c_j cs) th ti r sender coinbase dst al) as [(_ & -> & _) _].
   Qed.
 End Code.
+
+Section Code2.
+  Variable H : list N → list N.
+  Hypothesis H_bytes : ∀ x, forallb byteb (H x) = true.
+  Hypothesis H_len : ∀ x, lenN (H x) = 32.
+  Variables (addr_ok : addr → Prop) (slot_ok : slot → Prop).
+  Hypothesis Hk_addr : ∀ a b, addr_ok a → addr_ok b → addr_key H a = addr_key H b → a = b.
+  Hypothesis Hk_slot : ∀ a b, slot_ok a → slot_ok b → slot_key H a = slot_key H b → a = b.
+  Variable play : node → Prop.
+  Hypothesis play_empty : play NEmpty.
+  Hypothesis CF : ∀ t1 t2, play t1 → play t2 → hash_root H t1 = hash_root H t2 → t1 = t2.
+  Variable code_ok : N → Prop.
+  Hypothesis code_ok0 : code_ok 0.
+  Hypothesis Hc_inj : ∀ c c', code_ok c → code_ok c' → code_hash H c = code_hash H c' → c = c'.
+  Variables (al : list addr) (ks : list slot).
+  Hypothesis al_ok : ∀ a, addr_ok a ↔ a ∈ al.
+  Hypothesis ks_ok : ∀ k, slot_ok k ↔ k ∈ ks.
+
+  Notation ext_of := (ext_of H).
+  Notation Sync := (Sync H addr_ok slot_ok).
+  Notation in_p := (in_p H).
+  Notation CD := (CD H).
+
+  (* between transactions *)
+  Record CodeInv (p : pdb) (cs : cstate) : Prop := {
+    ci_live : ∀ a o, j_objs (c_j cs) !! a = Some o → a_code (o_data o) ≠ 0 →
+      in_p p (a_code (o_data o)) ∨
+      (x_dcode (ext_of cs a) = true ∧ ∃ m, c_muts cs !! a = Some m ∧ m_del m = false);
+    ci_orig : ∀ a o x, j_objs (c_j cs) !! a = Some o → o_origin o = Some x → a_code x ≠ 0 → in_p p (a_code x)
+  }.
+
+  Definition dmono (cs0 cs : cstate) : Prop :=
+    ∀ a, is_Some (j_objs (c_j cs0) !! a) → x_dcode (ext_of cs0 a) = true → x_dcode (ext_of cs a) = true.
+
+  Lemma body_CD p cs0 ops : wfc (c_j cs0) → j_entries (c_j cs0) = [] →
+    ∀ cs, InTx H cs0 cs → CD p cs → dmono cs0 cs → body_ok H cs ops →
+    CD p (run_c H cs ops) ∧ dmono cs0 (run_c H cs ops).
+  Proof.
+    intros W0 E0. induction ops as [|o rest IH]; intros cs I C M Hb; [done|].
+    destruct Hb as [H1 H2]. simpl. apply IH; [by apply InTx_step|by apply CD_step| |done].
+    intros a Ha Hd. destruct (step_c_dcode H cs o H1) as (D1 & _). apply D1; [|by apply M].
+    intros Hc. apply (creates_absent _ _ _ H1) in Hc.
+    destruct (fr_pres _ _ (fwd_Fr _ _ W0 (it_fwd _ _ _ I)) a Ha) as [x Hx]. congruence.
+  Qed.
+
+  Lemma codeinv_finalise p cs0 cs r :
+    Sync p cs0 → CodeInv p cs0 → InTx H cs0 cs → CD p cs → dmono cs0 cs →
+    CodeInv p (step_c H cs (OFinalise r)).1.
+  Proof.
+    intros S0 [L0 O0] I C M.
+    pose proof (sy_tb _ _ _ _ _ S0) as [W0 E0 _ _ _].
+    destruct I as [F (I1 & I2 & I3 & I4 & I5) X1 X2].
+    set (j0 := c_j cs0) in *. set (j := c_j cs) in *.
+    pose proof (fwd_Fr _ _ W0 F) as [Fdb Fdx Fpres Fframe Fpend Forig].
+    destruct (fin_state H r cs) as (J' & R' & T' & C' & X' & Mu'). fold j in J', X', Mu'.
+    set (cs' := (step_c H cs (OFinalise r)).1) in *.
+    assert (Ho' : ∀ a, j_objs (c_j cs') !! a =
+              match j_objs j !! a with
+              | Some o => if bool_decide (a ∈ dom (j_muts j)) then fin_obj r o else Some o
+              | None => None end) by (intros a; rewrite J'; apply fin_objs).
+    (* the object after Finalise, its origin and code, case by case *)
+    assert (Hcase : ∀ a o', j_objs (c_j cs') !! a = Some o' →
+              (∃ o0, j_objs j0 !! a = Some o0 ∧ o_data o' = o_data o0 ∧ o_origin o' = o_origin o0 ∧
+                     ext_of cs' a = ext_of cs a ∧ c_muts cs' !! a = c_muts cs0 !! a) ∨
+              (∃ o, j_objs j !! a = Some o ∧ o_origin o' = o_origin o ∧
+                    ((o_data o' = o_data o ∧ x_dcode (ext_of cs' a) = x_dcode (ext_of cs a) ∧
+                      c_muts cs' !! a = Some {| m_del := false; m_applied := false |}) ∨
+                     (a_code (o_data o') = a_code (default acct0 (o_origin o)))))).
+    { intros a o'. rewrite Ho'. destruct (j_objs j !! a) as [o|] eqn:Ho; [|done].
+      case_bool_decide as Hd.
+      - intros Hf. right. exists o. split; [done|].
+        assert (Hfd : fin_del r o = false) by (unfold fin_del; by rewrite Hf).
+        pose proof (fin_obj_shape _ _ _ Hf) as [_ Hor]. split; [done|].
+        apply fin_obj_cases in Hf as [[Hams ->]|[Hams ->]].
+        + right. simpl. by destruct (o_origin o).
+        + left. split; [by destruct o|]. rewrite X' Mu' Ho bool_decide_true // Hfd. unfold fin_x.
+          unfold fin_del in Hfd. destruct (fin_obj r o); [|done]. by rewrite Hams.
+      - intros [= <-]. left.
+        assert (Hnm : j_muts j !! a = None) by (by apply not_elem_of_dom).
+        pose proof (Fframe a Hnm) as Hc. rewrite Ho in Hc. apply ocore_eq in Hc.
+        destruct (j_objs j0 !! a) as [o0|] eqn:E0'; [|done]. destruct Hc as (Hdat & _ & _ & Hor).
+        exists o0. split; [done|]. split; [done|]. split; [done|].
+        rewrite X' Mu' Ho bool_decide_false // -I3. done. }
+    assert (HorigJ : ∀ a o x, j_objs j !! a = Some o → o_origin o = Some x → a_code x ≠ 0 → in_p p (a_code x)).
+    { intros a o x Ho Hor Hc. rewrite (Forig a o Ho) in Hor. destruct (j_objs j0 !! a) as [o0|] eqn:E0'; [|done].
+      by apply (O0 a o0 x). }
+    split.
+    - intros a o' Ho1 Hc. destruct (Hcase a o' Ho1) as [(o0 & E0' & Hdat & Hor & Hx & Hm)|(o & Ho & Hor & [(Hdat & Hx & Hm)|Hcode])].
+      + rewrite Hdat in Hc |- *. destruct (L0 a o0 E0' Hc) as [?|(Hd & m & Hm0 & Hdel)]; [by left|right].
+        split; [rewrite Hx; apply M; [by rewrite E0'|done]|]. exists m. by rewrite Hm.
+      + rewrite Hdat in Hc |- *. destruct (C a o Ho Hc) as [?|Hd]; [by left|right].
+        split; [by rewrite Hx|]. by eexists.
+      + rewrite Hcode in Hc |- *. destruct (o_origin o) as [x|] eqn:Eor; [|done]. left. by apply (HorigJ a o x).
+    - intros a o' x Ho1 Hor' Hc. destruct (Hcase a o' Ho1) as [(o0 & E0' & _ & Hor & _)|(o & Ho & Hor & _)].
+      + apply (O0 a o0 x); [done|congruence|done].
+      + apply (HorigJ a o x); [done|congruence|done].
+  Qed.
+
+  Lemma update_root_dcode p pend x0 x : update_root H p pend x0 = COk x → x_dcode x = x_dcode x0.
+  Proof.
+    unfold update_root. case_bool_decide; [by intros [= <-]|].
+    destruct (match x_trie x0 with Some t => Some t | None => open_trie H p (x_root x0) end); [|done].
+    destruct (t_update_seq _ _); [|done]. destruct (t_hash H _); [|done]. by intros [= <-].
+  Qed.
+
+  Lemma ir_storage_dcode p l : ∀ cs cs2, ir_storage H p l cs = COk cs2 →
+    ∀ b, x_dcode (ext_of cs2 b) = x_dcode (ext_of cs b).
+  Proof.
+    induction l as [|[a m] l IH]; intros cs cs2 E b; simpl in E; [by injection E as <-|].
+    destruct (m_applied m || m_del m); [by apply IH|]. destruct (j_objs (c_j cs) !! a) as [o|]; [|done].
+    destruct (update_root H p (o_pending o) (ext_of cs a)) as [x|] eqn:Eu; [|done].
+    rewrite (IH _ _ E) ext_set_x. case_bool_decide; [subst; by apply update_root_dcode in Eu|done].
+  Qed.
+
+  Lemma CodeInv_CD p cs : CodeInv p cs → CD p cs.
+  Proof. intros [L _] a o Ho Hc. destruct (L a o Ho Hc) as [?|[? _]]; [by left|by right]. Qed.
+
+  Lemma codeinv_ir p cs r root cs1 :
+    Sync p cs → CodeInv p cs → intermediate_root H r p cs = COk (root, cs1) → CodeInv p cs1.
+  Proof.
+    intros Sy Ci E.
+    assert (Ci0 : CodeInv p (step_c H cs (OFinalise r)).1).
+    { apply (codeinv_finalise p cs cs r Sy Ci (InTx_refl H cs) (CodeInv_CD p cs Ci)). by intros ???. }
+    unfold intermediate_root in E. set (cs0 := (step_c H cs (OFinalise r)).1) in *.
+    destruct (match c_trie cs0 with Some t => Some t | None => open_trie H p (c_root cs0) end) as [t0|]; [|done].
+    destruct (ir_storage H p (map_to_list (c_muts cs0)) cs0) as [cs2|] eqn:E2; [|done].
+    destruct (acct_updates H cs2 _) as [ups|]; [|done]. destruct (t_update_seq _ _) as [t'|]; [|done].
+    destruct (t_hash H _) as [hh|]; [|done].
+    injection E as _ <-. destruct (ir_storage_pres H p _ cs0 cs2 E2) as (P1 & P2 & _).
+    pose proof (ir_storage_dcode p _ cs0 cs2 E2) as Pd. destruct Ci0 as [L O]. split; simpl.
+    - intros a o. rewrite P1. intros Ho Hc. destruct (L a o Ho Hc) as [?|(Hd & m & Hm & Hdel)]; [by left|right].
+      split; [by rewrite -Pd in Hd|]. rewrite P2 lookup_fmap Hm /=. by eexists.
+    - intros a o x. rewrite P1. apply O.
+  Qed.
+
+  Notation txs_ok := (txs_ok H addr_ok slot_ok).
+  Notation tx_ok := (tx_ok H addr_ok slot_ok).
+
+  Lemma codeinv_tx p cs t cs' : Sync p cs → CodeInv p cs → tx_ok cs t → run_tx H p cs t = Some cs' → CodeInv p cs'.
+  Proof.
+    intros Sy Ci [Hb Hg] E. unfold run_tx in E. cbv zeta in E.
+    pose proof (sy_tb _ _ _ _ _ Sy) as [W0 E0 _ _ _].
+    pose proof (InTx_run H cs (t_ops t) W0 E0 cs (InTx_refl H cs) Hb) as I.
+    destruct (body_CD p cs (t_ops t) W0 E0 cs (InTx_refl H cs) (CodeInv_CD p cs Ci) (λ _ _ Hd, Hd) Hb) as [C M].
+    pose proof (codeinv_finalise p cs _ (t_rules t) Sy Ci I C M) as Ci2.
+    pose proof (sync_finalise H addr_ok slot_ok p cs _ (t_rules t) Sy I Hg) as Sy2.
+    destruct (t_ir t); [|by injection E as <-].
+    destruct (intermediate_root H (t_rules t) p _) as [[root cs3]|] eqn:Eir; [|done]. injection E as <-.
+    by eapply codeinv_ir.
+  Qed.
+
+  Lemma codeinv_txs p ts : ∀ cs cs', Sync p cs → CodeInv p cs → txs_ok p cs ts → run_txs H p cs ts = Some cs' → CodeInv p cs'.
+  Proof.
+    induction ts as [|t rest IH]; intros cs cs' Sy Ci Hok E; simpl in *; [by injection E as <-|].
+    destruct Hok as [Ht Hr]. destruct (run_tx H p cs t) as [cs1|] eqn:E1; [|done].
+    eapply IH; [|by eapply codeinv_tx|done|done].
+    by eapply (sync_tx H H_bytes addr_ok slot_ok Hk_addr Hk_slot).
+  Qed.
+
+  (* ---- chains whose blocks do NOT assume the code-store guard ---- *)
+  Notation chain := (chain H addr_ok slot_ok play code_ok al ks).
+  Notation blk_ok := (blk_ok H addr_ok slot_ok play code_ok).
+  Notation reopened := (reopened H al ks).
+
+  Definition blk_ok' (p : pdb) (cs0 : cstate) (b : blk) (cs cs1 : cstate) (root : list N) : Prop :=
+    txs_ok p cs0 (b_txs b) ∧ run_txs H p cs0 (b_txs b) = Some cs ∧
+    intermediate_root H (b_rules b) p cs = COk (root, cs1) ∧
+    tries_play H play p cs1 ∧ vals_ok slot_ok cs1 ∧
+    (∀ a o, j_objs (c_j cs1) !! a = Some o → code_ok (a_code (o_data o))).
+
+  Lemma blk_ok'_ok p cs0 b cs cs1 root :
+    Sync p cs0 → CodeInv p cs0 → blk_ok' p cs0 b cs cs1 root → blk_ok p cs0 b cs cs1 root ∧ CodeInv p cs1.
+  Proof.
+    intros Sy Ci (Hok & Er & Eir & Htp & Hv & Hck).
+    pose proof (codeinv_txs p _ cs0 cs Sy Ci Hok Er) as Ci1.
+    pose proof (sync_txs H H_bytes addr_ok slot_ok Hk_addr Hk_slot p _ cs0 cs Sy Hok Er) as Sy1.
+    pose proof (codeinv_ir p cs _ root cs1 Sy1 Ci1 Eir) as Ci2.
+    split; [|done]. split; [done|]. split; [done|]. split; [done|]. split; [done|]. split; [done|].
+    intros a o Ho. split; [by apply (Hck a o)|]. intros Hc. by apply (ci_live _ _ Ci2 a o).
+  Qed.
+
+  Inductive chain' : pdb → cstate → Prop :=
+  | chain0' : chain' pdb0 (cs_genesis H)
+  | chainS' p cs0 b cs cs1 root root' p' :
+      chain' p cs0 → blk_ok' p cs0 b cs cs1 root → root ≠ c_root cs1 →
+      commit H (b_crules b) p cs1 = COk (root', p') →
+      chain' p' (reopened cs1 root').
+
+  Theorem chain'_chain p cs0 : chain' p cs0 → chain p cs0 ∧ CodeInv p cs0.
+  Proof.
+    induction 1 as [|p cs0 b cs cs1 root root' p' Hc [IHc IHi] Hb Hne C].
+    - split; [constructor|]. split; intros a o; simpl; by rewrite fmap_empty lookup_empty.
+    - destruct (chain_inv H H_bytes H_len addr_ok slot_ok Hk_addr Hk_slot play play_empty CF code_ok code_ok0 Hc_inj al ks al_ok ks_ok p cs0 IHc)
+        as (Sy & Hp & Hcp & _).
+      destruct (blk_ok'_ok p cs0 b cs cs1 root Sy IHi Hb) as [Hb1 Ci1].
+      split; [by eapply chainS|].
+      pose proof Hb1 as (_ & _ & Eir & _ & Hv & Hcg).
+      destruct (commit_codes H H_bytes play play_empty CF code_ok Hc_inj (b_rules b) (b_crules b) p cs root cs1 root' p' Eir Hcp Hcg Hne C) as [_ Hin].
+      destruct (blk_sync H H_bytes addr_ok slot_ok Hk_addr Hk_slot play code_ok p cs0 b cs cs1 root Sy Hb1) as (_ & T & Hh & _).
+      assert (Hlive : ∀ a o, j_objs (c_j cs1) !! a = Some o → a ∈ al).
+      { intros a o Ho. apply al_ok. by apply (h_live_ok _ _ _ _ _ _ _ Hh a o). }
+      destruct (reopened_facts H H_bytes H_len addr_ok slot_ok Hk_addr Hk_slot play play_empty CF code_ok code_ok0 Hc_inj al ks al_ok ks_ok cs1 root' Hlive) as (F1 & _).
+      split.
+      + intros a o'. rewrite F1. destruct (j_objs (c_j cs1) !! a) as [o|] eqn:Ho; [|done]. intros [= <-] Hc0.
+        left. by apply (Hin a o).
+      + intros a o' x. rewrite F1. destruct (j_objs (c_j cs1) !! a) as [o|] eqn:Ho; [|done]. intros [= <-] [= <-] Hc0.
+        by apply (Hin a o).
+  Qed.
+End Code2.
+
+(* ---- the chain theorems without the code-store guard ---- *)
+Section Bundled2.
+  Context {H addr_ok slot_ok play code_ok al ks} (U : universe H addr_ok slot_ok play code_ok al ks).
+  Notation chain' := (chain' H addr_ok slot_ok play code_ok al ks).
+  Notation chain := (chain H addr_ok slot_ok play code_ok al ks).
+  Notation blk_ok' := (blk_ok' H addr_ok slot_ok play code_ok).
+  Notation blk_ok := (blk_ok H addr_ok slot_ok play code_ok).
+  Notation reopened := (reopened H al ks).
+
+  Lemma to_chain p cs0 : chain' p cs0 → chain p cs0 ∧ CodeInv H p cs0.
+  Proof. destruct U as [Ub Ul Ua Us Up0 Ucf Uc0 Uc Ual Uks]. by apply chain'_chain. Qed.
+
+  Lemma to_blk p cs0 b cs cs1 root : chain' p cs0 → blk_ok' p cs0 b cs cs1 root → blk_ok p cs0 b cs cs1 root.
+  Proof.
+    intros Hc Hb. destruct (to_chain p cs0 Hc) as [Hc1 Ci]. destruct (u_chain_inv U p cs0 Hc1) as (Sy & _).
+    destruct U as [Ub Ul Ua Us Up0 Ucf Uc0 Uc Ual Uks].
+    by destruct (blk_ok'_ok H Ub addr_ok slot_ok Ua Us play code_ok p cs0 b cs cs1 root Sy Ci Hb).
+  Qed.
+
+  Theorem v_chain_inv p cs0 : chain' p cs0 →
+    Sync H addr_ok slot_ok p cs0 ∧ pdb_ok H play p ∧ codes_ok H code_ok p ∧ open H al ks p (c_root cs0) = COk cs0.
+  Proof. intros Hc. destruct (to_chain p cs0 Hc) as [Hc1 _]. by apply (u_chain_inv U). Qed.
+
+  Theorem v_chain_reopen_reads p cs0 b cs cs1 root root' p' :
+    chain' p cs0 → blk_ok' p cs0 b cs cs1 root → root ≠ c_root cs1 →
+    commit H (b_crules b) p cs1 = COk (root', p') →
+    root' = root ∧ open H al ks p' root' = COk (reopened cs1 root') ∧
+    (∀ q, persistent_in slot_ok q → query_c (reopened cs1 root') q = query_c cs1 q) ∧
+    ∃ T, hashed H addr_ok slot_ok play p cs1 T ∧ hash_root H T = Some root.
+  Proof.
+    intros Hc Hb. destruct (to_chain p cs0 Hc) as [Hc1 _]. apply (u_chain_reopen_reads U p cs0 b cs cs1 root root' p' Hc1).
+    by apply to_blk.
+  Qed.
+
+  Theorem v_chain_empty_update p cs0 b cs cs1 root root' p' :
+    chain' p cs0 → blk_ok' p cs0 b cs cs1 root → root = c_root cs1 →
+    commit H (b_crules b) p cs1 = COk (root', p') →
+    root' = root ∧ p' = p ∧ open H al ks p' root' = COk cs0 ∧
+    (∀ q, persistent_in slot_ok q → query_c cs0 q = query_c cs1 q).
+  Proof.
+    intros Hc Hb He C. destruct (to_chain p cs0 Hc) as [Hc1 _]. pose proof (to_blk p cs0 b cs cs1 root Hc Hb) as Hb1.
+    destruct (u_chain_empty_update U p cs0 b cs cs1 root root' p' Hc1 Hb1 He C) as (A & B & D).
+    split; [done|]. split; [done|]. split; [done|]. by apply (u_chain_empty_update_getters U p cs0 b cs cs1 root).
+  Qed.
+
+  Theorem v_chain_destruct_recreate_clean p cs0 b cs cs1 root root' p' a o k :
+    chain' p cs0 → blk_ok' p cs0 b cs cs1 root → root ≠ c_root cs1 →
+    commit H (b_crules b) p cs1 = COk (root', p') →
+    a ∈ j_destruct (c_j cs1) → j_objs (c_j cs1) !! a = Some o → o_pending o !! k = None → slot_ok k →
+    query_c (reopened cs1 root') (QState a k) = AN 0 ∧ query_c (reopened cs1 root') (QCommitted a k) = AN 0.
+  Proof.
+    intros Hc Hb. destruct (to_chain p cs0 Hc) as [Hc1 _].
+    apply (u_chain_destruct_recreate_clean U p cs0 b cs cs1 root root' p' a o k Hc1). by apply to_blk.
+  Qed.
+
+  Theorem v_chain_root_depends_only_on_state pa csa0 ba csa csa1 roota pb csb0 bb csb csb1 rootb :
+    chain' pa csa0 → blk_ok' pa csa0 ba csa csa1 roota →
+    chain' pb csb0 → blk_ok' pb csb0 bb csb csb1 rootb →
+    (∀ a, match j_objs (c_j csa1) !! a, j_objs (c_j csb1) !! a with
+          | Some o1, Some o2 => o_data o1 = o_data o2 ∧
+                                ∀ k, slot_ok k → committed (c_j csa1) a o1 k = committed (c_j csb1) a o2 k
+          | None, None => True
+          | _, _ => False
+          end) →
+    roota = rootb.
+  Proof.
+    intros Ha Hba Hb Hbb. destruct (to_chain pa csa0 Ha) as [Ha1 _]. destruct (to_chain pb csb0 Hb) as [Hb1 _].
+    apply (u_chain_root_depends_only_on_state U pa csa0 ba csa csa1 roota pb csb0 bb csb csb1 rootb Ha1); [by apply to_blk|done|by apply to_blk].
+  Qed.
+End Bundled2.
+
+(* ---- the bundled hypotheses are satisfiable ---- *)
+Definition toyH32 (x : list N) : list N := firstn 32 (map (λ b, b mod 256) x ++ repeat 0 32).
+
+Lemma In_firstn' {A} (x : A) n : ∀ l, In x (firstn n l) → In x l.
+Proof. induction n as [|n IH]; intros [|y l]; simpl; try done. intros [->|Hin]; [by left|right; by apply IH]. Qed.
+
+Lemma universe_example :
+  universe toyH32 (λ a, a = 1) (λ k, k = 0) (λ t, t = NEmpty) (λ c, c = 0) [1] [0].
+Proof.
+  split; try done.
+  - intros x. apply forallb_forall. intros b Hb. apply In_firstn' in Hb. apply in_app_iff in Hb as [Hb|Hb].
+    + apply in_map_iff in Hb as (y & <- & _). apply N.ltb_lt. by apply N.mod_lt.
+    + apply repeat_spec in Hb. by subst.
+  - intros x. unfold toyH32, lenN. rewrite firstn_length app_length repeat_length. f_equal. lia.
+  - by intros a b -> ->.
+  - by intros a b -> ->.
+  - by intros t1 t2 -> ->.
+  - by intros c c' -> ->.
+  - intros a. by rewrite elem_of_list_singleton.
+  - intros k. by rewrite elem_of_list_singleton.
+Qed.
